@@ -17,7 +17,7 @@ open Sio.Simple
                  (held = receive() parked on connected_event, not notified, while a signalled
                   arrival is unreturned: the region of the known finding),
         "log":   [{"o": outcome, "pc": …, "buf": […], "arrived": n, "returned": n, "signalled": n,
-                   "seen": n, "ended": b, "cev": b, "conn": b, "woken": b}, …],
+                   "seen": n, "ended": b, "cev": b, "conn": b, "woken": b, "endedRd": b, "revived": b}, …],
         "returned": […], "arrived": n, "buf": […]}
 -/
 
@@ -35,7 +35,7 @@ def choiceOfToken (t : String) : Except String Choice :=
   else throw s!"bad token {t}"
 
 def pcName : CPc → String
-  | .idle => "idle" | .r0 => "r0" | .r1 => "r1" | .r1w => "r1w" | .r2 => "r2" | .r3 => "r3"
+  | .idle => "idle" | .r0 => "r0" | .r1 => "r1" | .r1w => "r1w" | .r2 => "r2" | .r2b => "r2b" | .r3 => "r3"
   | .r3w => "r3w" | .r4 => "r4" | .r5 => "r5" | .e1 => "e1" | .e1w => "e1w" | .e2 => "e2"
   | .e3 => "e3"
 
@@ -56,7 +56,8 @@ def entryJson (e : Outcome × View) : Json :=
   Json.mkObj [("o", outcomeJson e.1), ("pc", Json.str (pcName v.pc)), ("buf", natsJson v.buf),
     ("arrived", Json.num v.arrivedN), ("returned", Json.num v.returnedN),
     ("signalled", Json.num v.signalled), ("seen", Json.num v.seen), ("ended", Json.bool v.ended),
-    ("cev", Json.bool v.cev), ("conn", Json.bool v.conn), ("woken", Json.bool v.woken)]
+    ("cev", Json.bool v.cev), ("conn", Json.bool v.conn), ("woken", Json.bool v.woken),
+    ("endedRd", Json.bool v.endedRd), ("revived", Json.bool v.revived)]
 
 def traceEntry (s : State) : Json :=
   Json.arr #[Json.str (statusOf s), Json.str (pcName s.cpc), Json.num s.log.length,
